@@ -57,6 +57,25 @@ theorem C07_fallible_same_statement_order :
 /-- non-vacuity: the post-init dialect of `Into` really splices `init` before `post_init` -/
 example : (bodyOrder Gen.tmpl_quote_into_trait).head? = some ["pre_init", "dst", "those_gens", "init", "post_init"] := by decide
 
+/-- the instruction names that say neither `owned` nor `ref` -/
+def flavourNeutralNames : List String :=
+  ["map", "from", "into", "into_existing", "try_map", "try_from", "try_into", "try_into_existing"]
+
+/-- C07 (*tables*, regenerated): wherever an applicability vector is filled — type level, member level and the nested
+    `[..]` instructions of a parameterised `#[parent(..)]` — an instruction whose name says neither `owned` nor `ref`
+    applies to the by-reference flavour of a conversion exactly when it applies to the owned one: one written
+    mapping serves both, in Into, From and IntoExisting alike -/
+theorem C07_owned_ref_same_instructions :
+    ((Gen.nestedAppl :: ((Gen.typeArms ++ Gen.memberArms).filter (fun a => match a.kind with | .map _ => true | _ => false)).map (·.appl)).all fun v =>
+      flavourNeutralNames.all fun n =>
+        let A := applOf v n
+        A.get .ownedInto == A.get .refInto && A.get .fromOwned == A.get .fromRef
+          && A.get .ownedIntoExisting == A.get .refIntoExisting) = true := by decide
+
+/-- non-vacuity: the nested vector is there and `into_existing` does apply to both IntoExisting flavours -/
+example : (applOf Gen.nestedAppl "into_existing").get .ownedIntoExisting = true
+    ∧ (applOf Gen.nestedAppl "into_existing").get .refIntoExisting = true := by decide
+
 /-- the source object named by the generated code depends only on the direction, not on owned / by-ref / fallible -/
 theorem C07_same_source_object (k k' : Kind) (h : k.isFrom = k'.isFrom) : srcIdent k = srcIdent k' := by
   unfold srcIdent; rw [h]
